@@ -97,48 +97,86 @@ def _t1(ctx: Context) -> None:
     cfg = ctx.cfg(f.qualname)
     T = _terms(ctx)
     payload = f.pos_params[1]
-    loops = [n for n in cfg.nodes if n.kind == "loop_head"]
-    if len(loops) != 1:
-        ck.unknown("C05.T1", f"send_bytes: expected one framing loop, found {len(loops)}", f.loc())
-        return
-    loop = loops[0].ast
-    in_loop = lambda n: any(fr[0] == "loop" and fr[1] is loop and fr[2] == "body" for fr in n.frames)  # noqa: E731
-    # chunk taken / advance
-    take = adv = None
+    # the framing loop: the innermost loop around the (possibly aliased) encrypt call
+    enc_nodes = []
     for n in cfg.nodes:
-        a = n.ast
-        if n.kind == "stmt" and in_loop(n) and isinstance(a, ast.Assign) and isinstance(a.value, ast.Subscript) and isinstance(a.value.slice, ast.Slice):
-            sl = a.value.slice
-            base = T.of(cfg, n, a.value.value)
-            if not contains(base, lambda s: s == ("param", payload)):
-                continue
-            if sl.lower is None and sl.upper is not None:
-                take = (n, T.of(cfg, n, sl.upper), a.targets[0])
-            elif sl.upper is None and sl.lower is not None:
-                adv = (n, T.of(cfg, n, sl.lower), a.targets[0])
-    if take is None or adv is None:
-        ck.unknown("C05.T1", "send_bytes: chunk slice / advance slice of the payload not found", f.loc())
+        for c in ctx.calls(n):
+            ft = T.of(cfg, n, c.func) if isinstance(c.func, (ast.Name, ast.Attribute)) else ("unknown", "")
+            if ft[0] == "attr" and ft[2] == "encrypt":
+                enc_nodes.append(n)
+    if not enc_nodes:
+        ck.violated("C05.T1", f"{ctx.fkey(f)}:no-encrypt", "send_bytes no longer encrypts the payload", f.loc())
         return
-    ck.check("C05.T1", take[1] == adv[1] == ("const", FRAME_MAX_PLAINTEXT), f"chunk = payload[:K], advance = payload[K:], K = {FRAME_MAX_PLAINTEXT}",
-             f"{ctx.fkey(f)}:chunk-constants", f"send_bytes takes payload[:{show(take[1])}] but advances by payload[{show(adv[1])}:] (HAP: frames of at most {FRAME_MAX_PLAINTEXT} plaintext bytes, every byte once)",
-             ctx.loc(f, take[0]))
-    ck.check("C05.T1", isinstance(adv[2], ast.Name) and adv[2].id == payload or _u(adv[2]) == payload, "the advance is assigned back to the payload variable",
-             f"{ctx.fkey(f)}:advance-target", "send_bytes: the remainder is not assigned back to the payload", ctx.loc(f, adv[0]))
-    # take before advance (both from the same payload value)
-    p = cfg.find_path(loops[0].id, adv[0].id, avoid_nodes=[take[0].id])
-    ck.check("C05.T1", p is None, "the chunk is taken before the payload is advanced", f"{ctx.fkey(f)}:take-before-advance",
-             "send_bytes advances the payload before taking the chunk (the first bytes are skipped)", ctx.loc(f, adv[0]))
-    # loop guard: non-emptiness of the payload
-    tests = [n for n in cfg.nodes if n.kind == "test" and n.ast is loop.test or (n.kind == "test" and any(n.exprs[0] is x for x in ast.walk(loop.test)))]
-    okg = False
-    for n in tests:
-        t = strip_sites(T.of(cfg, n, n.exprs[0]))
-        if t[0] == "cmp" and t[1] == ("Gt",) and t[2][1] == ("const", 0) and t[2][0][0] == "call" and t[2][0][1] == ("glob", "len"):
-            okg = True
-        if t[0] != "cmp" and contains(t, lambda s: s == ("param", payload)):
-            okg = True  # truthiness
-    ck.check("C05.T1", okg and len(tests) == 1, "the loop runs while the payload is non-empty", f"{ctx.fkey(f)}:loop-guard",
-             "send_bytes: the framing loop is not guarded by the payload being non-empty", ctx.loc(f, loops[0]))
+    loop_frames = [fr for fr in enc_nodes[0].frames if fr[0] == "loop" and fr[2] == "body"]
+    if not loop_frames:
+        ck.violated("C05.T1", f"{ctx.fkey(f)}:no-framing-loop", "send_bytes encrypts outside any loop: payloads above 1024 bytes are not split into frames", ctx.loc(f, enc_nodes[0]))
+        return
+    loop = loop_frames[-1][1]
+    in_loop = lambda n: any(fr[0] == "loop" and fr[1] is loop and fr[2] == "body" for fr in n.frames)  # noqa: E731
+    take = adv = None
+    if isinstance(loop, ast.While):
+        loops = [n for n in cfg.nodes if n.kind == "loop_head" and n.ast is loop]
+        # chunk taken / advance
+        for n in cfg.nodes:
+            a = n.ast
+            if n.kind == "stmt" and in_loop(n) and isinstance(a, ast.Assign) and isinstance(a.value, ast.Subscript) and isinstance(a.value.slice, ast.Slice):
+                sl = a.value.slice
+                base = T.of(cfg, n, a.value.value)
+                if not contains(base, lambda s: s == ("param", payload)):
+                    continue
+                if sl.lower is None and sl.upper is not None:
+                    take = (n, T.of(cfg, n, sl.upper), a.targets[0])
+                elif sl.upper is None and sl.lower is not None:
+                    adv = (n, T.of(cfg, n, sl.lower), a.targets[0])
+        if take is None or adv is None:
+            ck.unknown("C05.T1", "send_bytes: chunk slice / advance slice of the payload not found", f.loc())
+            return
+        ck.check("C05.T1", take[1] == adv[1] == ("const", FRAME_MAX_PLAINTEXT), f"chunk = payload[:K], advance = payload[K:], K = {FRAME_MAX_PLAINTEXT}",
+                 f"{ctx.fkey(f)}:chunk-constants", f"send_bytes takes payload[:{show(take[1])}] but advances by payload[{show(adv[1])}:] (HAP: frames of at most {FRAME_MAX_PLAINTEXT} plaintext bytes, every byte once)",
+                 ctx.loc(f, take[0]))
+        ck.check("C05.T1", isinstance(adv[2], ast.Name) and adv[2].id == payload or _u(adv[2]) == payload, "the advance is assigned back to the payload variable",
+                 f"{ctx.fkey(f)}:advance-target", "send_bytes: the remainder is not assigned back to the payload", ctx.loc(f, adv[0]))
+        # take before advance (both from the same payload value)
+        p = cfg.find_path(loops[0].id, adv[0].id, avoid_nodes=[take[0].id])
+        ck.check("C05.T1", p is None, "the chunk is taken before the payload is advanced", f"{ctx.fkey(f)}:take-before-advance",
+                 "send_bytes advances the payload before taking the chunk (the first bytes are skipped)", ctx.loc(f, adv[0]))
+        # loop guard: non-emptiness of the payload
+        tests = [n for n in cfg.nodes if n.kind == "test" and n.ast is loop.test or (n.kind == "test" and any(n.exprs[0] is x for x in ast.walk(loop.test)))]
+        okg = False
+        for n in tests:
+            t = strip_sites(T.of(cfg, n, n.exprs[0]))
+            if t[0] == "cmp" and t[1] == ("Gt",) and t[2][1] == ("const", 0) and t[2][0][0] == "call" and t[2][0][1] == ("glob", "len"):
+                okg = True
+            if t[0] != "cmp" and contains(t, lambda s: s == ("param", payload)):
+                okg = True  # truthiness
+        ck.check("C05.T1", okg and len(tests) == 1, "the loop runs while the payload is non-empty", f"{ctx.fkey(f)}:loop-guard",
+                 "send_bytes: the framing loop is not guarded by the payload being non-empty", ctx.loc(f, loops[0]))
+    else:
+        # for offset in range(0, len(payload), K): chunk = payload[offset : offset + K]
+        loops = [n for n in cfg.nodes if n.kind == "for" and n.ast is loop]
+        it = strip_sites(T.of(cfg, [n for n in cfg.nodes if n.kind == "for_iter" and n.ast is loop][0], loop.iter))
+        okr = (it[0] == "call" and it[1] == ("glob", "range") and len(it[2]) == 3 and it[2][0] == ("const", 0)
+               and it[2][1] == ("call", ("glob", "len"), (("param", payload),), ()) and it[2][2] == ("const", FRAME_MAX_PLAINTEXT))
+        if not (it[0] == "call" and it[1] == ("glob", "range")):
+            ck.unknown("C05.T1", "send_bytes: framing loop is neither `while payload` nor `for offset in range(...)`", ctx.loc(f, loops[0]))
+            return
+        ck.check("C05.T1", okr, f"frames start at range(0, len(payload), {FRAME_MAX_PLAINTEXT})", f"{ctx.fkey(f)}:chunk-constants",
+                 f"send_bytes iterates {show(it, 100)}: frames must start every {FRAME_MAX_PLAINTEXT} bytes from 0 to len(payload)", ctx.loc(f, loops[0]))
+        offv = loop.target.id if isinstance(loop.target, ast.Name) else None
+        for n in cfg.nodes:
+            a = n.ast
+            if n.kind == "stmt" and in_loop(n) and isinstance(a, ast.Assign) and isinstance(a.value, ast.Subscript) and isinstance(a.value.slice, ast.Slice) and isinstance(a.targets[0], ast.Name):
+                sl = a.value.slice
+                if strip_sites(T.of(cfg, n, a.value.value)) == ("param", payload) and sl.lower is not None and sl.upper is not None:
+                    take = (n, sl, a.targets[0])
+        if take is None or offv is None:
+            ck.unknown("C05.T1", "send_bytes: chunk slice payload[offset : offset + K] not found", f.loc())
+            return
+        sl = take[1]
+        okc = _u(sl.lower) == offv and isinstance(sl.upper, ast.BinOp) and isinstance(sl.upper.op, ast.Add) and (
+            (_u(sl.upper.left) == offv and ctx.const(f, sl.upper.right, None) == FRAME_MAX_PLAINTEXT) or (_u(sl.upper.right) == offv and ctx.const(f, sl.upper.left, None) == FRAME_MAX_PLAINTEXT))
+        ck.check("C05.T1", okc, f"chunk = payload[offset : offset + {FRAME_MAX_PLAINTEXT}] with the loop's own offset", f"{ctx.fkey(f)}:chunk-slice",
+                 f"send_bytes takes payload[{_u(sl.lower)}:{_u(sl.upper)}]: slice width and loop step must both be {FRAME_MAX_PLAINTEXT}", ctx.loc(f, take[0]))
     # emitted items, in order: pack(len(chunk)) then encrypt(aad=len bytes, nonce=PACK_NONCE(counter), chunk)
     chunk_t = strip_sites(T.var_after(cfg, take[0], take[2].id)) if isinstance(take[2], ast.Name) else None
     emits = []
@@ -168,6 +206,27 @@ def _t1(ctx: Context) -> None:
             ok_enc = aad == want_len and ctr_ok and pt == chunk_t and e[1][1][0] == "attr" and e[1][1][1] == ("param", "self")
     ck.check("C05.T1", ok_enc, "second item: encrypt(aad = the length bytes, nonce = PACK_NONCE(send counter), plaintext = the chunk)",
              f"{ctx.fkey(f)}:cipher-item", f"send_bytes: the encrypted item is {show(flat[1][1], 200) if len(flat) == 2 else 'missing'}", ctx.loc(f, flat[1][0] if len(flat) == 2 else loops[0]))
+    # the send counter is the attribute itself and advances by one per frame inside the loop
+    if len(flat) == 2 and flat[1][1][0] == "call" and len(flat[1][1][2]) == 3:
+        nonce = flat[1][1][2][1]
+        ctr_t = nonce[2][1] if _is_pack(nonce, "<LQ") and len(nonce[2]) == 2 else None
+        direct = ctr_t is not None and ctr_t[0] == "attr" and ctr_t[1] == ("param", "self")
+        ck.check("C05.T1", direct, "the nonce counter is the protocol's send counter attribute itself", f"{ctx.fkey(f)}:nonce-counter",
+                 f"send_bytes builds the nonce from {show(ctr_t, 80) if ctr_t else 'a non-counter value'} instead of the send counter attribute: frame counters of "
+                 "consecutive requests can overlap or skip", ctx.loc(f, flat[1][0]))
+        if direct:
+            incs = [m for m in cfg.nodes if in_loop(m) and m.kind == "stmt" and isinstance(m.ast, ast.AugAssign) and isinstance(m.ast.op, ast.Add)
+                    and ctx.const(f, m.ast.value, None) == 1 and strip_sites(T.of(cfg, m, m.ast.target)) == ctr_t]
+            okc = len(incs) == 1
+            if okc:
+                for e in ctx.normal_out(cfg, flat[1][0]):
+                    if e[1] != incs[0].id and cfg.find_path(e[1], loops[0].id, avoid_nodes=[incs[0].id]) is not None:
+                        okc = False
+            others = [m for m in cfg.nodes if m.kind == "stmt" and isinstance(m.ast, (ast.AugAssign, ast.Assign)) and m not in incs
+                      and strip_sites(T.of(cfg, m, m.ast.target if isinstance(m.ast, ast.AugAssign) else m.ast.targets[0])) == ctr_t]
+            ck.check("C05.T1", okc and not others, "the send counter advances by exactly one per frame, inside the loop", f"{ctx.fkey(f)}:counter-per-frame",
+                     "send_bytes does not advance the send counter by exactly one per frame inside the framing loop (the accessory's counter advances once per frame)",
+                     ctx.loc(f, flat[1][0]))
     # order: length item before cipher item on every path
     if len(flat) == 2 and flat[0][0] is not flat[1][0]:
         p = cfg.find_path(loops[0].id, flat[1][0].id, avoid_nodes=[flat[0][0].id])
